@@ -242,9 +242,9 @@ def run_impl(lines, chunk=400):
     chunk = max(1, min(chunk, -(-len(lines) // (4 * min(16, os.cpu_count() or 4)))))
     chunks = [lines[i:i + chunk] for i in range(0, len(lines), chunk)]
     try:
-        res = pool().map_async(_impl_chunk, chunks).get(timeout=3000)
+        res = pool().map_async(_impl_chunk, chunks).get(timeout=7200)
     except mp.TimeoutError:
-        raise Infra("implementation workers did not answer within 3000 s")
+        raise Infra("implementation workers did not answer within 7200 s")
     return [a for r in res for a in r]
 
 
